@@ -642,6 +642,10 @@ package queue
 //@   ensures [C14:matched_within_limit] result0.Matched <= effLimit(req.Limit)
 //@   ensures [no_error] result1 == nil
 
+// C04 on SQLite: the fencing lives in the WHERE clause of one statement per operation; the SQL text is opaque to the verifier,
+// the `calls execRowsAffectedTx` clauses below pin each closure to its statement and to its parameters (lease id, state
+// 'leased', the store clock as expiry bound, the requested delay / extension).
+
 // ---- C01: lease mutations on SQLite (ack / nack / extend / dead-letter) answer nil only after their statement committed ----
 
 //@ spec
@@ -657,18 +661,23 @@ package queue
 //@ func (*SQLiteStore).Ack$1
 //@   requires conn != nil && s != nil
 //@   modifies durable, txOpen, txPending
+//@   calls execRowsAffectedTx@1 requires [C04:retained_ack_is_the_fenced_update_with_its_parameters] s.deliveredRetentionMaxAge > 0 && arg2 == "\nUPDATE queue_items\nSET state = ?, lease_id = NULL, lease_until = NULL, next_run_at = ?, dead_reason = NULL\nWHERE lease_id = ?\n  AND state = ?\n  AND (lease_until IS NULL OR lease_until > ?);\n" && nvarargs == 5 && vararg0 == "delivered" && vararg1 == unixNanoOf(now) && vararg2 == leaseID && vararg3 == "leased" && vararg4 == unixNanoOf(now)
+//@   calls execRowsAffectedTx@2 requires [C04:ack_is_the_fenced_delete_with_its_parameters] s.deliveredRetentionMaxAge <= 0 && arg2 == "\nDELETE FROM queue_items\nWHERE lease_id = ?\n  AND state = ?\n  AND (lease_until IS NULL OR lease_until > ?);\n" && nvarargs == 3 && vararg0 == leaseID && vararg1 == "leased" && vararg2 == unixNanoOf(now)
 //@   ensures [C01:autocommit_statement] txOpen == old(txOpen) && durable >= old(durable) && (result1 == nil && !old(txOpen) ==> durable == old(durable) + 1) && (!old(txOpen) ==> txPending == old(txPending))
 //@ func (*SQLiteStore).Nack$1
 //@   requires conn != nil
 //@   modifies durable, txOpen, txPending
+//@   calls execRowsAffectedTx requires [C04:nack_is_the_fenced_statement_with_its_parameters] arg2 == "\nUPDATE queue_items\nSET state = ?, lease_id = NULL, lease_until = NULL, next_run_at = ?, dead_reason = NULL\nWHERE lease_id = ?\n  AND state = ?\n  AND (lease_until IS NULL OR lease_until > ?);\n" && nvarargs == 5 && vararg0 == "queued" && vararg1 == unixNanoOf(now + delay) && vararg2 == leaseID && vararg3 == "leased" && vararg4 == unixNanoOf(now)
 //@   ensures [C01:autocommit_statement] txOpen == old(txOpen) && durable >= old(durable) && (result1 == nil && !old(txOpen) ==> durable == old(durable) + 1) && (!old(txOpen) ==> txPending == old(txPending))
 //@ func (*SQLiteStore).Extend$1
 //@   requires conn != nil
 //@   modifies durable, txOpen, txPending
+//@   calls execRowsAffectedTx requires [C04:extend_is_the_fenced_statement_with_its_parameters] arg2 == "\nUPDATE queue_items\nSET lease_until = lease_until + ?, next_run_at = lease_until + ?\nWHERE lease_id = ?\n  AND state = ?\n  AND lease_until IS NOT NULL\n  AND lease_until > ?;\n" && nvarargs == 5 && vararg0 == extendBy && vararg1 == extendBy && vararg2 == leaseID && vararg3 == "leased" && vararg4 == unixNanoOf(now)
 //@   ensures [C01:autocommit_statement] txOpen == old(txOpen) && durable >= old(durable) && (result1 == nil && !old(txOpen) ==> durable == old(durable) + 1) && (!old(txOpen) ==> txPending == old(txPending))
 //@ func (*SQLiteStore).MarkDead$1
 //@   requires conn != nil
 //@   modifies durable, txOpen, txPending
+//@   calls execRowsAffectedTx requires [C04:dead_letter_is_the_fenced_statement_with_its_parameters] arg2 == "\nUPDATE queue_items\nSET state = ?, lease_id = NULL, lease_until = NULL, next_run_at = ?, dead_reason = ?\nWHERE lease_id = ?\n  AND state = ?\n  AND (lease_until IS NULL OR lease_until > ?);\n" && nvarargs == 6 && vararg0 == "dead" && vararg1 == unixNanoOf(now) && vararg3 == leaseID && vararg4 == "leased" && vararg5 == unixNanoOf(now)
 //@   ensures [C01:autocommit_statement] txOpen == old(txOpen) && durable >= old(durable) && (result1 == nil && !old(txOpen) ==> durable == old(durable) + 1) && (!old(txOpen) ==> txPending == old(txPending))
 
 // the clause withLeaseMutation assumes of its function parameter is the clause proved for each closure above
@@ -872,3 +881,9 @@ package queue
 //@ pred pruneByReceivedAt(q string) := q == "\nDELETE FROM queue_items\nWHERE state = ?\n  AND received_at <= ?;\n"
 //@ pred pruneByNextRunAt(q string) := q == "\nDELETE FROM queue_items\nWHERE state = ?\n  AND next_run_at <= ?;\n"
 //@ pred pruneDeadDepth(q string) := q == "\nDELETE FROM queue_items\nWHERE id IN (\n  SELECT id FROM queue_items\n  WHERE state = ?\n  ORDER BY received_at DESC\n  LIMIT -1 OFFSET ?\n);\n"
+
+// ---- C05 on SQLite: the sweep requeues every lease whose lease_until is at or before the store clock, as of that clock ----
+//@ func (*SQLiteStore).requeueExpiredLeases
+//@   requires conn != nil
+//@   modifies durable, txOpen, txPending
+//@   calls database/sql.(*Conn).ExecContext requires [C05:expired_leases_are_requeued_as_of_the_store_clock] arg2 == "\nUPDATE queue_items\nSET state = ?, lease_id = NULL, lease_until = NULL, next_run_at = ?, dead_reason = NULL\nWHERE state = ?\n  AND lease_until IS NOT NULL\n  AND lease_until <= ?;\n" && nvarargs == 4 && vararg0 == "queued" && vararg1 == unixNanoOf(now) && vararg2 == "leased" && vararg3 == unixNanoOf(now)
